@@ -49,8 +49,10 @@ def run(tier):
         for c, rp, b in zip(members, rps, back):
             if b.get("outcome") != "ok" or b.get("ast") is None:
                 continue
-            got = [dict(st, s=st["s"][:-4]) if st["k"] == "use" and st["s"].endswith(".oal") else st for st in b["ast"]]
-            if got != c["prog"]["mods"][c["prog"]["main"]]:
+            def strip(n):
+                return {"k": n["k"], "s": n["s"], "q": n["q"], "n": n["n"], "a": [strip(x) for x in n["a"]]}
+            got = [strip(dict(st, s=st["s"][:-4]) if st["k"] == "use" and st["s"].endswith(".oal") else st) for st in b["ast"]]
+            if got != [strip(st) for st in c["prog"]["mods"][c["prog"]["main"]]]:
                 raise common.ToolError("renderer cross-check failed (tree2ast(render(p)) != p) on %r" % rp["files"][rp["main"]][:200])
         obs = run_oalv_parallel("compile", cases, jobs=8)
         same = 0
